@@ -189,6 +189,10 @@ pub fn main(o: &Opts) -> Result<i32, String> {
                 };
                 let mut nmap = HashMap::new();
                 nmap.insert("*".to_string(), nm.to_string());
+                // C08: the responder is given another spelling of the same protocol (bound to the atom "name2")
+                if let Some(n2) = scn.get("name2").and_then(|n| n.as_str()) {
+                    nmap.insert("R".to_string(), n2.to_string());
+                }
                 // under a mixed-backend run the self-named scenarios rotate through the three resolver shapes
                 let mut bk = HashMap::new();
                 if backends_mode != "default" {
